@@ -81,6 +81,7 @@ Proof.
   - destruct (p_run s && peer_open s p); [|exact Hi]. rewrite Hi. cbn. exact Hi.
   - destruct ((src =? 5) && negb (peer_open s p)); [exact Hi|].
     destruct ((5 <=? src) && (src <=? 8)); cbn [fst]; [rewrite (proj1 (add_addrs_fields _ _ _ _ _))|]; exact Hi.
+  - exact Hi.
 Qed.
 
 Lemma PInv_add c s src n : PInv s -> PInv (add_addrs true c s src n).
@@ -111,6 +112,7 @@ Proof.
     intro Hi. cbn in Hi. apply Z.eqb_eq in E3. congruence.
   - destruct ((src =? 5) && negb (peer_open s p)); [exact H|].
     destruct ((5 <=? src) && (src <=? 8)); cbn [fst]; [apply PInv_add|]; exact H.
+  - exact H.
 Qed.
 
 Lemma PInv_init info : PInv (pinit info).
@@ -208,6 +210,7 @@ Proof.
     destruct ((5 <=? src) && (src <=? 8)); cbn [fst].
     + exact (add_addrs_bound c s src 1 Hi ltac:(lia) Hs).
     + split; [exact Hs|destruct ((src =? 7) || (src =? 8)); lia].
+  - exact Same.
 Qed.
 
 Lemma private_known_bounded c evs : Forall ev_nonneg evs ->
@@ -237,6 +240,7 @@ Proof.
   - destruct (p_run s && peer_open s p); [|exact Hi]. rewrite Hi. cbn. exact Hi.
   - destruct ((src =? 5) && negb (peer_open s p)); [exact Hi|].
     destruct ((5 <=? src) && (src <=? 8)); cbn [fst]; [rewrite (proj1 (add_addrs_fields _ _ _ _ _))|]; exact Hi.
+  - exact Hi.
 Qed.
 
 Lemma private_metadata_refused fixed c evs :
